@@ -79,7 +79,10 @@ def _status_of(args: Tuple[str, str]) -> Tuple[str, str, str, str]:
     ref = repo.reference(text, target)
     if ref.exc is not None:
         return mid, target, "raises", f"{ref.exc[0]}@{ref.exc[2]}"
-    located = "located" if re.search(r"\bline \d+", ref.err) else ""
+    front_end = ref.err.startswith(("Failed to parse", "One or more unexpected imports",
+                                    "Failed to construct the symbol table",
+                                    "Failed to translate the parsed symbol table"))
+    located = "located" if (re.search(r"\bline \d+", ref.err) and not front_end) else ""
     return mid, target, ("ok" if ref.rc == 0 else "reported"), located
 
 
